@@ -207,10 +207,11 @@ class EnumGen:
         return nxt, used
 
     # -- plain enums ------------------------------------------------------------------------
-    def enum(self, shape="wf", feature=None):
-        """one enum of the C04 grammar; shape in wf|neg|big|dupval|dupname|typedexpr|empty"""
+    def enum(self, shape="wf", feature=None, kinds=None, T=None):
+        """one enum of the C04 grammar; shape in wf|neg|big|dupval|dupname|typedexpr|empty;
+        kinds: restrict the underlying kind to this list; T: force the type name"""
         for _ in range(400):
-            en = self._try_enum(shape, feature)
+            en = self._try_enum(shape, feature, kinds, T)
             if en is None:
                 continue
             cl, decl = classify(en)
@@ -220,15 +221,15 @@ class EnumGen:
                 return en
         raise core.InfraError("enum generator: cannot build a %s/%s enum" % (shape, feature))
 
-    def _try_enum(self, shape, feature):
+    def _try_enum(self, shape, feature, kinds=None, T=None):
         rng = self.rng
-        T = rng.choice(TYPE_NAMES)
+        T = T or rng.choice(TYPE_NAMES)
+        pool = list(kinds or KIND_NAMES)
         if shape == "neg":
-            kind = rng.choice([k for k in KIND_NAMES if KINDS[k][0]])
+            pool = [k for k in pool if KINDS[k][0]] or [k for k in KIND_NAMES if KINDS[k][0]]
         elif shape == "big":
-            kind = rng.choice(["uint64", "uint"])
-        else:
-            kind = rng.choice(KIND_NAMES)
+            pool = [k for k in pool if k in ("uint64", "uint")] or ["uint64", "uint"]
+        kind = rng.choice(pool)
         if feature and feature.startswith("kind:"):
             kind = feature[5:]
         lo, hi = krange(kind)
@@ -1025,3 +1026,164 @@ def features_of(en):
                         if n != "_":
                             fs.add("prefixed" if n.startswith(T) else "unprefixed")
     return fs
+
+
+# ------------------------------------------------------------------------------------------------
+# C01 leg: every successful `shoot enum` run yields Go that compiles with its package
+# ------------------------------------------------------------------------------------------------
+
+C01_FLAGS = ["bit", "json", "text", "sql", "gorm"]
+LISTED_KINDS = ["int", "uint", "int32", "uint32"]        # what ListTypes (-file / -type=*) keeps
+C01_HEADER = re.compile(r'^// Code generated by "shoot [^"\n]*"; DO NOT EDIT\.')
+
+
+def _all_names(en):
+    return [n for f in en["files"] for b in f["blocks"] for s in b["specs"] for n in s["names"] if n != "_"]
+
+
+def c01_case(ctx, g, cid, shape, feature, flags, mode):
+    """one package: one enum (two for -type=A,B and sometimes for -file / -type=*), rendered for the selection mode"""
+    rng = ctx.rng
+    kinds = None
+    if mode in ("file", "star") and rng.random() < 0.9:
+        kinds = LISTED_KINDS
+    if feature and feature.startswith("kind:") and kinds and feature[5:] not in kinds:
+        kinds = None
+    ens = [g.enum(shape, feature, kinds=kinds)]
+    if mode == "list" or (mode in ("file", "star") and rng.random() < 0.4):
+        for _ in range(60):
+            T2 = rng.choice([t for t in TYPE_NAMES if t != ens[0]["T"] and t.lower() != ens[0]["T"].lower()])
+            e2 = g.enum(rng.choice(["wf", "wf", "wf", shape]), None, kinds=kinds, T=T2)
+            if not (set(_all_names(e2)) & set(_all_names(ens[0]))):
+                ens.append(e2)
+                break
+    aux = any(e.get("aux") for e in ens)
+    # layout
+    files = {}
+    blocks_in_order = []
+    if mode in ("file", "star"):
+        body = ["package cs\n"]
+        if mode == "star":
+            body.append("//go:generate shoot %s\n" % " ".join(["enum"] + ["-" + f for f in flags] + ["-type=*"]))
+        for e in ens:
+            body.append("type %s %s\n" % (e["T"], e["kind"]))
+        if aux:
+            body.append("type Aux int\n")
+        for e in ens:
+            for f in e["files"]:
+                for b in f["blocks"]:
+                    body.append(render_block(b))
+                    blocks_in_order.append((e, b))
+        files["a.go"] = "\n".join(body)
+    else:
+        for k, e in enumerate(ens):
+            e = dict(e, aux=(aux and k == 0))
+            for fn, src in render_files(e).items():
+                files[("z%d_" % k if k else "") + fn] = src
+            for f in e["files"]:
+                for b in f["blocks"]:
+                    blocks_in_order.append((e, b))
+    # one evaluation over the whole package (the blocks of the enums are independent of each other)
+    blocks_sexp = []
+    for e in ens:
+        blocks_sexp += input_sexp(e)[1][1:]
+    names = [e["T"] for e in ens]
+    if mode == "type":
+        sel, named = ["-type=" + names[0]], names[:1]
+    elif mode == "list":
+        sel, named = ["-type=" + ",".join(names)], names
+    elif mode == "file":
+        sel, named = ["-file=a.go"], []
+    else:
+        sel, named = ["-type=*"], []
+    types = [[Q(e["T"]), e["kind"]] + (["sel"] if e["T"] in named else []) for e in ens]
+    if aux:
+        types.append([Q("Aux"), "int"])
+    args = ["enum"] + ["-" + f for f in flags] + sel
+    sexp = dump(["case", cid, "c01enum", ["flags"] + flags, ["mode", mode], ["types"] + types, ["blocks"] + blocks_sexp])
+    return {"id": cid, "area": "enum", "files": files, "runs": [{"args": args}], "oracle": {}, "sexp": sexp, "key": sexp,
+            "cmd": "shoot " + " ".join(args), "mode": mode, "flags": ["-" + f for f in flags], "shape": shape,
+            "feature": feature or "random", "kinds": [e["kind"] for e in ens]}
+
+
+def c01_observe(ctx, cases):
+    """same observables as props/c01.py observe(), over a batch whose module knows the gorm stub"""
+    b = EnumBatch(ctx, "c01enum", gorm=True)
+    for c in cases:
+        b.add(c)
+    out = b.execute()
+    p = core.run(["gofmt", "-l", "."], cwd=b.root)
+    unformatted = set(p.stdout.split())
+    impl = {}
+    for c in cases:
+        r = out[c["id"]]
+        rc = r["runs"][0]["rc"]
+        im = {"exit": str(rc)}
+        gen = {k: v for k, v in r["written"].items() if ".shoot" in k}
+        if rc == 0:
+            im["compile"] = "ok" if r["compile"] == "ok" else "error"
+            im["header"] = "ok" if gen and all(C01_HEADER.match(v) for v in gen.values()) else ("none-written" if not gen else "missing")
+            im["gofmt"] = "ok" if not any(("c_%s/%s" % (c["id"], k)) in unformatted for k in gen) else "unformatted"
+            im["package"] = "ok" if all(re.search(r"^package cs$", v, flags=re.M) for v in gen.values()) else "wrong"
+        c["detail"] = {"compile": r["compile"], "stderr": r["runs"][0]["stderr"][-400:], "written": sorted(gen)}
+        impl[c["id"]] = im
+    return impl
+
+
+def c01_leg(ctx, res, n):
+    """run n enum cases for C01 and record them in res (core.Result); returns the number of cases"""
+    import itertools
+    rng = ctx.rng
+    g = EnumGen(rng)
+    modes = ["type", "list", "file", "star"]
+    plan = []          # (shape, feature, flags, mode)
+    lattice = [[f for f, on in zip(C01_FLAGS, bits) if on] for bits in itertools.product([False, True], repeat=len(C01_FLAGS))]
+    # 1. the full flag lattice on a plain shape (and on further shapes when there is room), modes cycling
+    rounds = max(1, min(4, n // 60))
+    for r in range(rounds):
+        for k, fl in enumerate(lattice):
+            plan.append(("wf", [None, "carried", "multi", "shift"][r], fl, modes[(k + r) % 4]))
+    # 2. every region shape and every underlying kind / iota form, in every mode
+    shaped = ([("neg", None), ("big", None), ("dupval", None), ("dupname", None), ("typedexpr", None), ("empty", None)] +
+              [("wf", "kind:" + k) for k in KIND_NAMES] +
+              [("wf", f) for f in ["iota", "offset", "shift", "explicit", "multi", "lin", "hex", "carried", "placeholder",
+                                   "multi-block", "multi-file", "accidental-prefix", "distractor"]])
+    for k, (sh, ft) in enumerate(shaped):
+        fl = [f for f in C01_FLAGS if f != "bit" and rng.random() < 0.4]
+        if "gorm" in fl and "sql" not in fl:
+            fl.append("sql")
+        plan.append((sh, ft, [f for f in C01_FLAGS if f in fl], modes[k % 4]))
+    for sh in ["neg", "big", "dupval", "dupname"]:
+        for m in modes:
+            plan.append((sh, None, [], m))
+    plan = plan[:n] if len(plan) > n else plan
+    # 3. random
+    while len(plan) < n:
+        r = rng.random()
+        sh = "wf" if r < 0.8 else rng.choice(["neg", "big", "dupval", "dupname", "typedexpr"])
+        fl = [f for f in C01_FLAGS if rng.random() < (0.15 if f == "bit" else 0.4)]
+        if "gorm" in fl and "sql" not in fl and rng.random() < 0.85:
+            fl.append("sql")
+        plan.append((sh, rng.choice([s[1] for s in shaped]) if rng.random() < 0.3 and sh == "wf" else None,
+                     [f for f in C01_FLAGS if f in fl], rng.choice(modes)))
+    cases = [c01_case(ctx, g, "e%d" % i, sh, ft, fl, m) for i, (sh, ft, fl, m) in enumerate(plan)]
+    impl = c01_observe(ctx, cases)
+    model = core.model_run(ctx, [c["sexp"] for c in cases], driver="shootmodel_enum")
+    for c in cases:
+        res.hist("area", c["area"])
+        res.hist("mode", "enum:" + c["mode"])
+        res.hist("enum-shape", c["shape"])
+        res.hist("enum-flagset", "+".join(f[1:] for f in c["flags"]) or "none")
+        for k in c["kinds"]:
+            res.hist("enum-kind", k)
+        for f in c["flags"]:
+            res.hist("flag", "enum" + f)
+    core.compare_cases(ctx, res, cases, impl, model,
+                       sig=lambda c, region, dk, im, m: region if region.startswith("F_") else region + ":" + ",".join(sorted(dk)),
+                       nontrivial=lambda c, m, im: m["region"] != "Out")
+    for v in res.violations:
+        for c in cases:
+            if c["sexp"] == v["case"]:
+                v.setdefault("detail", c.get("detail"))
+                v.setdefault("sources", c.get("files"))
+    return len(cases)
